@@ -12,6 +12,8 @@ Reading guide
 -/
 import EPV.Lemmas.LexicalCast
 import EPV.Lemmas.LexicalRepr
+import EPV.Lemmas.LexicalBinStr
+import EPV.Lemmas.LexicalLang
 namespace EPV.C10
 open EPV EPV.LexLemmas
 
@@ -277,6 +279,22 @@ theorem bool_canon_fixed_point (b : Bool) :
     Lex.boolCtor (if b then "true".toList else "false".toList) = .ok b := by
   cases b <;> decide
 
+/-! ## language -/
+
+/-- **ctor_iff_lexical (xs:language)**: `Language(s)` succeeds exactly when the collapsed string is one to eight
+letters followed by hyphen-separated sub-tags of one to eight letters or digits (XSD 1.1 Part 2 §3.4.3), and the
+value is the collapsed string — every string. -/
+theorem language_ctor_iff_lexical (s : List Char) :
+    Lex.langCtor s = if XSD.languageLex (XSD.wsCollapse s) then some (XSD.wsCollapse s) else none := by
+  unfold Lex.langCtor
+  rw [matchLanguage_eq, collapse_eq_wsCollapse_all]
+
+/-- tests on literals -/
+example : Lex.langCtor " en-US\n".toList = some "en-US".toList ∧ Lex.langCtor "abcdefghi".toList = none ∧
+    Lex.langCtor "en-".toList = none ∧ Lex.langCtor "e1".toList = none ∧ (Lex.langCtor "x-klingon-12345678".toList).isSome ∧
+    Lex.langCtor "en--US".toList = none ∧ Lex.langCtor "".toList = none := by
+  simp only [language_ctor_iff_lexical]; decide
+
 /-! ## hexBinary / base64Binary -/
 
 /-- the hexBinary pattern is the XSD lexical space hexOctet* (newline-free strings) -/
@@ -353,6 +371,16 @@ theorem hex_base64_value_preserved (bs : List Lex.Byte) :
     ((Lex.castHexToB64 (Lex.hexEncode bs)).bind Lex.castB64ToHex) = some (Lex.hexEncode bs) := by
   simp [Lex.castHexToB64, Lex.castB64ToHex, hexDecode_hexEncode, b64Decode_b64Encode]
 
+/-- **binary ↔ string casts**: for every octet list, the string of an xs:hexBinary value (upper-case hex,
+`HexBinary.__str__`) and of an xs:base64Binary value (the encoder's text) are literals of the lexical spaces:
+the constructors accept them, store them unchanged, and decode the same octets —
+`xs:hexBinary(xs:string(h)) = h`, `xs:base64Binary(xs:string(b)) = b`. -/
+theorem binary_string_roundtrip (bs : List Lex.Byte) :
+    (Lex.hexCtor (Lex.hexEncodeUpper bs) = .ok (Lex.hexEncodeUpper bs) ∧
+      Lex.hexDecode (Lex.hexEncodeUpper bs) = some bs) ∧
+    (Lex.b64Ctor (Lex.b64Encode bs) = .ok (Lex.b64Encode bs) ∧ Lex.b64Decode (Lex.b64Encode bs) = some bs) :=
+  ⟨hexCtor_hexEncodeUpper bs, b64Ctor_b64Encode bs⟩
+
 /-- non-trivial instance (test on literals) -/
 example : Lex.b64Encode [65, 66, 67, 68] = "QUJDRA==".toList ∧ Lex.hexEncodeUpper [0, 255, 16] = "00FF10".toList := by
   decide
@@ -366,6 +394,22 @@ theorem castable_iff_cast_ok (ver : Lex.Ver) (a : Lex.Atom) (t : Lex.Target) :
     Lex.castable ver a t = true ↔ ∃ v, Lex.cast ver a t = .ok v := by
   unfold Lex.castable
   cases Lex.cast ver a t <;> simp [Except.toBool]
+
+/-- the same on operand *sequences*: `castable` is true exactly when the cast succeeds (possibly with the empty
+sequence, for `?`), the constructor function is the cast with `?`, and anything but a single item is decided
+without looking at the target type -/
+theorem castable_seq_iff_cast_ok (ver : Lex.Ver) (items : List Lex.Atom) (opt : Bool) (t : Lex.Target) :
+    (Lex.castableSeq ver items opt t = true ↔ ∃ r, Lex.castSeq ver items opt t = .ok r) ∧
+    Lex.ctorFn ver items t = Lex.castSeq ver items true t ∧
+    (items = [] → Lex.castSeq ver items opt t = if opt then .ok none else .error .XPTY0004) ∧
+    (2 ≤ items.length → Lex.castSeq ver items opt t = .error .XPTY0004) := by
+  refine ⟨?_, rfl, ?_, ?_⟩
+  · unfold Lex.castableSeq
+    cases Lex.castSeq ver items opt t <;> simp [Except.toBool]
+  · intro h; subst h; rfl
+  · intro h
+    match items, h with
+    | _ :: _ :: _, _ => rfl
 
 /-- **cast_eq_constructor**: casting a string (or an xs:untypedAtomic) is running the datatypes
 constructor on it and mapping `ValueError` to FORG0001 — for each modelled target. -/
